@@ -226,6 +226,10 @@ PoolC07bool ==
     \cup {Call("not", <<x>>) : x \in BoolOperands \cup NSOperands
                                    \cup {Bin("=", Rel1("child", NTName("b")), N(1)), Bin("and", Rel1("child", NTAny), Rel1("child", NTName("zz")))}}
     \cup {Call("boolean", <<x>>) : x \in AnyOperands}
+    \* non-empty strings are TRUE whatever they spell
+    \cup UNION {{Call("boolean", <<x>>), Call("not", <<x>>), Bin("and", x, Call("true", <<>>)), Bin("or", Call("false", <<>>), x),
+                  Bin("=", x, Call("true", <<>>)), Bin("!=", Call("false", <<>>), x)}
+                 : x \in {Lit("0"), Lit("0.0"), Lit("-0"), Lit(" 0 "), Lit("false"), Lit("NaN"), Lit(" "), Lit("null")}}
     \cup BoolOperands
     \cup {Bin("or", x, Bomb) : x \in {Call("true", <<>>), N(1), Lit("a"), Path(TRUE, <<Step("child", NTAny, <<>>)>>)}}
     \cup {Bin("and", x, Bomb) : x \in {Call("false", <<>>), N(0), Lit(""), Rel1("child", NTName("zz"))}}
@@ -271,6 +275,17 @@ Fun2(f, A, B) == {Call(f, <<x, y>>) : x \in A, y \in B}
 Fun1(f, A) == {Call(f, <<x>>) : x \in A}
 Fun2Names == <<"contains", "starts-with", "ends-with", "substring-before", "substring-after", "concat">>
 PoolC09twoSets == [i \in 1 .. Len(Fun2Names) |-> Fun2(Fun2Names[i], StrLits(StrPool) \cup StrNS, StrLits(StrPool))]
+                  \* a node-set as SECOND argument (and in both positions)
+                  \o [i \in 1 .. Len(Fun2Names) |-> Fun2(Fun2Names[i], StrLits({"", "a", "1", "x1", "2 "}) \cup StrNS, StrNS)]
+                  \o << {Call("translate", <<x, y, z>>) : x \in StrLits({"1x2", "a"}) \cup StrNS, y \in StrNS \cup StrLits({"1"}), z \in StrNS \cup StrLits({"-"})},
+                        {Call("string-join", <<x, y>>) : x \in StrNS \cup {Rel1("child", NTAny)}, y \in StrNS} >>
+\* tab, line feed, carriage return INSIDE the value (XPath whitespace is #x20 #x9 #xD #xA)
+WsStrings == {"a\tb", "a\nb", "a\rb", "\ta \t b\n", "a \tb", "\t", "a\t\tb", "a\n b"}
+PoolC09ws == {Call("normalize-space", <<Lit(x)>>) : x \in WsStrings}
+             \cup {Call("string-length", <<Call("normalize-space", <<Lit(x)>>)>>) : x \in WsStrings}
+             \cup {Call("normalize-space", <<Call("concat", <<Lit(x), Lit(" "), Lit(y)>>)>>) : x \in WsStrings, y \in {"c", "\t"}}
+             \cup {Call("translate", <<Lit(x), Lit("\t\n"), Lit("-")>>) : x \in WsStrings}
+             \cup {Call("contains", <<Lit(x), Lit("\t")>>) : x \in WsStrings}
 PoolC09one ==
     UNION {Fun1(f, StrLits(StrPool) \cup StrNS) : f \in {"string-length", "normalize-space", "lower-case", "string"}}
     \cup {Call("normalize-space", <<>>), Call("string-length", <<>>), Call("string", <<>>)}
@@ -339,6 +354,9 @@ PoolC15edges ==
                   Call("substring", <<Lit("abc"), s>>), Call("sum", <<s>>), Path(FALSE, <<Step("child", NTAny, <<Bin(">", SelfDot, s)>>)>>)}
                  : s \in {Lit("-"), Lit(" - "), Lit("."), Lit("-."), Lit("+"), Lit("+1"), Lit("e"), Lit("1e"), Lit("1e3"), Lit("1."), Lit(".5"),
                            Lit("-.5"), Lit("--1"), Lit("1-"), Lit("0x1"), Lit("1 2"), Lit(" "), Lit("Infinity"), Lit("NaN"), Lit("-0")}}
+    \* patterns that do not compile, COMPUTED so that Compile cannot reject them; every case is evaluated several times
+    \cup UNION {{Call("matches", <<Lit("a"), Call("concat", <<Lit(p), Lit("")>>)>>), Call("replace", <<Lit("a"), Call("concat", <<Lit(p), Lit("")>>), Lit("x")>>),
+                  Call("matches", <<Rel1("child", NTAny), Call("string", <<Lit(p)>>)>>)} : p \in {"[", "(", "a{2,1}", "*", "\\"}}
     \cup {Call("string-join", <<Rel1("child", NTName("zz")), Lit(",")>>), Call("sum", <<Rel1("child", NTName("zz"))>>),
           Call("reverse", <<Rel1("child", NTName("zz"))>>), Call("concat", <<Lit(""), Lit("")>>)}
 AllAxisNames == Axes \cup {"namespace"}
@@ -430,7 +448,14 @@ PoolC04 ==
     \* succeed on others: an aborted evaluation must leave nothing behind either (pooled buffers, half-built results)
     PE(Call("concat", <<Lit("n="), Call("string", <<Call("sum", <<Call("string", <<SelfDot>>)>>)>>)>>), "none"),
     PE(Call("concat", <<Call("string", <<Rel1("child", NTAny)>>), Lit("|"), Call("string", <<Call("sum", <<Call("string", <<Rel1("attribute", NTAny)>>)>>)>>)>>), "none"),
-    PE(Call("normalize-space", <<Call("concat", <<Lit(" a "), Call("string", <<Call("sum", <<Call("string", <<SelfDot>>)>>)>>)>>)>>), "none") }
+    PE(Call("normalize-space", <<Call("concat", <<Lit(" a "), Call("string", <<Call("sum", <<Call("string", <<SelfDot>>)>>)>>)>>)>>), "none"),
+    \* functions whose SEVERAL arguments come from the context node (closures that memoise by their arguments)
+    PE(Call("translate", <<Lit("abcabc"), Rel1("attribute", NTName("s")), Rel1("attribute", NTName("d"))>>), "set"),
+    PE(Call("concat", <<Rel1("attribute", NTName("s")), Rel1("attribute", NTName("d"))>>), "set"),
+    PE(Call("contains", <<Rel1("attribute", NTName("s")), Rel1("attribute", NTName("d"))>>), "set"),
+    PE(Call("substring-before", <<Lit("abcabc"), Rel1("attribute", NTName("d"))>>), "set"),
+    PE(Call("string-join", <<Rel1("attribute", NTAny), Rel1("attribute", NTName("d"))>>), "set"),
+    PE(Call("starts-with", <<Call("concat", <<Rel1("attribute", NTName("s")), Rel1("attribute", NTName("d"))>>), Rel1("attribute", NTName("s"))>>), "set") }
 
 \* the same node-set expressions evaluated IN PLACE by an operator (Evaluate runs
 \* on the compiled tree itself; an early match abandons the operand half-way)
